@@ -387,7 +387,7 @@ pub fn run(run: &Run) {
         2 => Just(Op::Reopen),
     ];
     let case = prop::collection::vec(op, 1..=len).prop_map(|ops| Case { ops });
-    run.prop("history", run.tier.pick(240, 3000), sh, case, run_case);
+    run.prop("history", run.tier.pick(1440, 9000), sh, case, run_case);
 
     // corruption sweep: enumerate offsets (quick: every 4th) × masks
     let masks = [0x01u8, 0x80, 0xff];
@@ -416,7 +416,7 @@ pub fn run(run: &Run) {
     }
 
     let crash = (prop::collection::vec((0u8..3, any::<u8>()), 0..3), prop_oneof![(0u8..3, any::<u8>()).prop_map(|(i, s)| Interrupted::Store(i, s)), (0u8..4).prop_map(Interrupted::ChangePassword)]).prop_map(|(pre_seeds, op)| CrashCase { pre_seeds, op });
-    run.prop("crash", run.tier.pick(16, 200), sh, crash, run_crash);
+    run.prop("crash", run.tier.pick(96, 600), sh, crash, run_crash);
 }
 
 pub fn replay(run: &Run, sub: &str, case: &Value) -> Option<bool> {
